@@ -77,6 +77,23 @@ def place_rules(ctx, facts, rep):
     ok &= rep.check(good, rule, "local-part-not-in-central", where(el, el.span), "after the local part is emitted the buffer is cleared and central-only mode entered",
                     "the local part of the extra data is kept for the central record (or central-only mode is not entered)")
     ok &= sib_rules(ctx, facts, rep) if False else True
+    # ending the extra-data phase hands the sink to the entry's compressor on EVERY path that is not central-only -- also when the
+    # local part is empty (an aligned entry that needed no padding): the only things that decide here are the two mode flags, the
+    # large_file form, validation and I/O results
+    from engine.paths import paths as _paths, outcome as _outcome, PathExplosion
+    try:
+        pz = _paths(ee, max_paths=20000)
+    except PathExplosion:
+        pz = None
+    if pz is not None:
+        KNOWN = r"^self\.writing_to_extra_field$|^self\.writing_to_central_extra_field_only$|\.large_file$|^discr\(Try::branch\(|^discr\(TryInto::try_into\(|^discr\(TryFrom::try_from\(|^discr\(ok\(|^#iter$"
+        extra = sorted({a_[:70] for p_ in pz for a_, v_ in p_["decisions"] if not re.search(KNOWN, a_)})
+        okp = [p_ for p_ in pz if _outcome(p_)[0] == "Ok"]
+        local = [p_ for p_ in okp if any(a_ == "self.writing_to_central_extra_field_only" and v_ == 0 for a_, v_ in p_["decisions"])]
+        sw = all(any(e_[1].endswith("switch_to") for e_ in p_["effects"]) for p_ in local)
+        ok &= rep.check(bool(local) and sw and not extra, rule, "compressor-switched-on-every-local-path", where(ee, ee.span),
+                        "every successful non-central-only path switches to the entry's compressor; nothing but the mode flags / large_file / results decides",
+                        "end_extra_data %s" % ("also branches on %s" % extra if extra else "has a successful path that leaves the sink in Stored mode for an entry whose header names its own method"))
     return ok
 
 
